@@ -249,6 +249,16 @@ def gen_cell(cell, rng, rep):
     if kind in ('svc', 'und', 'smc', 'dabt', 'hyptrap') and (rng.random() < 0.25 or (kind == 'dabt' and (cell['mode'] == 'hyp' or cell.get('TGE')))):
         via = 'api'          # Registers.take_*_exception() called directly (the only way to reach e.g. a Data Abort taken to Hyp mode)
         words[-1] = (T.NOP << 16 | T.NOP) if thumb else A.NOP
+    if via == 'api' and kind in ('svc', 'smc') and thumb and it and pre == 0 and cell['mode'] in ('svc', 'irq', 'fiq', 'abt', 'und') and pc < 0xFFFFFF00 and rng.random() < 0.6:
+        # the IT state the entry meets was not there from the start: it arrives with an exception RETURN (SUBS PC, LR, #0 restoring an SPSR whose IT bits are
+        # live) executed in the step before the entry routine is called
+        state['spsr'][cell['mode']] = cpsr
+        state['cpsr'] = cpsr & ~0x0600FC00
+        R['LR' + cell['mode']] = (pc + 4) & 0xFFFFFFFF
+        words.insert(0, T.subs_pc_lr(0))
+        inject[0]['tick'] = 1
+    if rng.random() < 0.15:
+        events.insert(0, {'tick': rng.randrange(0, inject[0]['tick'] + 1), 'core': 0, 'kind': 'regswap'})
     inject[0]['via'] = via
     inject[0]['align'] = want_align
     core = {'config': cfg, 'devices': devices, 'regs': state, 'words': words, 'force': None, 'no_poke': []}
